@@ -291,7 +291,16 @@ func execStruct(vec J, out *Writer) {
 				rec["unmarshal_err"] = B(uerr.Error())
 			}
 			rec["decoded"] = dump(q, t)
+			// the same text decoded once more into the struct that already holds the value (a Decoder loop
+			// decoding every paragraph into one variable does this): the value must not accumulate
+			u2 := control.Unmarshal(q, bytes.NewReader(buf.Bytes()))
+			rec["redecode_ok"] = u2 == nil
+			rec["redecoded"] = dump(q, t)
 		}()
+		if _, ok := rec["redecoded"]; !ok {
+			rec["redecode_ok"] = false
+			rec["redecoded"] = J{}
+		}
 		out.Put(rec)
 	case "passthru":
 		// document with unknown fields -> P5 -> change the known fields -> Marshal
